@@ -147,6 +147,10 @@ func TypedOnRemoteUpdate(obj interface{}, fn func(interface{})) bool {
 	return true
 }
 
+// InfoTemplate is the accessory.Info the accessory constructors of the registry are called with. Checks may replace it
+// (e.g. by an Info with nothing but a name) and build again.
+var InfoTemplate = accessory.Info{Name: "Acc", SerialNumber: "SN", Manufacturer: "M", Model: "Mo", FirmwareRevision: "1.0"}
+
 // Fields lists the exported pointer fields of the struct v points to (the typed handles a constructor returns next
 // to the generic object: service.Lightbulb.On, accessory.Switch.Switch, …), in declaration order.
 func Fields(v interface{}) (names []string, vals []interface{}) {
